@@ -62,6 +62,9 @@ def constants():
     t += f"/-- `GetBlocks/GetHeaders.parse`: cap of the locator count -/\ndef MAX_LOCATOR_SZ : Nat := {inv_mod.MAX_LOCATOR_SZ}\n"
     t += f"/-- `Headers.parse`: cap of the header count -/\ndef MAX_HEADERS_RESULTS : Nat := {inv_mod.MAX_HEADERS_RESULTS}\n"
 
+    from btclib.p2p import block_filters as bf_mod
+    t += f"/-- `CFHeaders.parse`: cap of the filter hash count -/\ndef MAX_GETCFHEADERS_SIZE : Nat := {bf_mod.MAX_GETCFHEADERS_SIZE}\n"
+
     def order(fields):
         # emission order of a PSBT map: (type byte, or 256 for `unknown`) in the order of _SERIALIZED_FIELDS
         out = []
